@@ -94,7 +94,12 @@ pub fn check(sc: &Scenario, ex: &mut Exec) -> (Verdict, Option<String>) {
         let sigma = t.noise.cols.iter().find(|c| c.name == t.column).map(|c| c.sigma).unwrap_or(0.0);
         tau_ir = tau_ir.min(t.tau);
         sigma_ir = sigma_ir.min(sigma);
-        if t.tau < tau_req * (1.0 - 1e-6) || sigma < sigma_req * (1.0 - 1e-9) {
+        // the compiler evaluates Phi^-1((1 - delta)^(1/Cu)) in f64: an absolute rounding of a few
+        // 1e-16 on the probability moves the quantile by that over the density there (visible
+        // once delta x share ~ 1e-12: the quantile is then only good to ~1e-5)
+        let z_req = (tau_req - 1.0) / sigma_req;
+        let dz = 4e-16 / ((-z_req * z_req / 2.0).exp() / (2.0 * std::f64::consts::PI).sqrt()).max(1e-300);
+        if t.tau < tau_req * (1.0 - 1e-6) - sigma_req * dz || sigma < sigma_req * (1.0 - 1e-9) {
             violations.push(Violation {
                 property: "C04".into(),
                 invariant: "tau_literal".into(),
